@@ -40,9 +40,10 @@ type cfgT[V any] struct {
 
 func mapCmpCfg() cfgT[*Tok] {
 	return cfgT[*Tok]{
-		name: "Map[*Tok,*Tok]/NewMapCmp",
+		name: "Map[*Tok,*Tok]/NewMapCmp((a-b)*7)",
 		newSUT: func(ctr *int64) tk.SUT[*Tok, *Tok] {
-			return tk.NewMapSUT(tree.NewMapCmp[*Tok, *Tok](func(a, b *Tok) int { *ctr++; return cmpTok(a, b) }))
+			// arbitrary magnitudes, not just -1/0/+1: any three-way compare function is allowed
+			return tk.NewMapSUT(tree.NewMapCmp[*Tok, *Tok](func(a, b *Tok) int { *ctr++; return (a.ID - b.ID) * 7 }))
 		},
 		valOf:   func(id int) *Tok { return &Tok{ID: id} },
 		valEq:   func(a, b *Tok) bool { return a == b },
@@ -93,7 +94,7 @@ func main() {
 		}) != nil {
 			r.Inconclusive("could not read the fan-out constants")
 		}
-		n := r.Scale(180, 6000)
+		n := r.Scale(120, 6000)
 		r.Cases("hist", n, runtime.GOMAXPROCS(0), func(c *vkit.Case) {
 			switch c.Index % 3 {
 			case 0:
@@ -174,6 +175,15 @@ func (d *drv[V]) judge(op string, j int) {
 	}
 	d.r.Max("tree", "levels", w.Depth)
 	d.r.Max("tree", "keys", d.model.Len())
+	removedNodes := false
+	if d.prev != nil && len(w.Index) < len(d.prev.Index) {
+		removedNodes = true
+	}
+	if removedNodes || d.nops%16 == 0 {
+		if d.deepScan(op, j) {
+			return
+		}
+	}
 	if d.prev != nil {
 		ev := tk.Classify(d.prev, w)
 		if ev.Class != "none" {
@@ -221,6 +231,44 @@ func (d *drv[V]) judge(op string, j int) {
 		}
 	}
 	d.prev = w
+}
+
+// deepScan decides "no longer referenced from the live structure" without knowing the structure:
+// every token reachable from the Map/Set value through any field must be one the ideal map holds.
+func (d *drv[V]) deepScan(op string, j int) bool {
+	live := make(map[*Tok]struct{}, 2*d.model.Len())
+	for _, e := range d.model.E {
+		live[e.K] = struct{}{}
+		if vt, ok := any(e.V).(*Tok); ok && vt != nil {
+			live[vt] = struct{}{}
+		}
+	}
+	var stale *Tok
+	nstale := 0
+	found := 0
+	objs := tk.DeepToks(d.sut.Raw(), func(t *Tok) {
+		found++
+		if _, ok := live[t]; !ok {
+			nstale++
+			if stale == nil {
+				stale = t
+			}
+		}
+	})
+	d.r.Eval(1)
+	d.r.Count("reachability scan", "scans", 1)
+	d.r.Count("reachability scan", "objects visited", objs)
+	d.r.Count("reachability scan", "tokens found", found)
+	if nstale > 0 {
+		d.fail("retained-unreachable-from-root", fmt.Sprintf("%s: after %s(%d) with %d keys: %d key/value token(s) that the ideal map no longer holds (e.g. %v) are still referenced from the collection value, outside the nodes reachable from the root or in a slot the walk does not know",
+			d.cfg.name, op, j, d.model.Len(), nstale, stale))
+		return true
+	}
+	if want := len(live); found < want {
+		d.fail("deep-scan-short", fmt.Sprintf("%s: the reachability scan found %d tokens, the ideal map holds %d", d.cfg.name, found, want))
+		return true
+	}
+	return false
 }
 
 func containsPart(class, part string) bool {
